@@ -26,7 +26,21 @@ type hconc struct{}
 
 func (*hconc) Name() string { return "hconc" }
 
+// concGarbage is an input no format accepts: probing it walks every registered
+// decoder, which is what touches all lazily initialised process-wide state.
+var concGarbage = func() []byte {
+	b := make([]byte, 384)
+	x := uint32(0x9e3779b9)
+	for i := range b {
+		x = x*1664525 + 1013904223
+		b[i] = byte(x >> 24)
+	}
+	copy(b, "\x00\x01not any format\xff\xfe")
+	return b
+}()
+
 type concJob struct {
+	garbage  bool
 	s        corpus.Sample
 	prog     string
 	optForce bool
@@ -89,6 +103,11 @@ func (j *concJob) newOS(t *simrt.Tape) *simos.OS {
 	// of such a job independent of tape-drawn short reads
 	o.Disk.Benign = j.planKind == simos.PlanNone
 	o.Disk.PlanKind, o.Disk.PlanAt = j.planKind, j.planAt
+	if j.garbage {
+		o.AddFile("sample", simos.Regular, concGarbage)
+		o.ArgsV = []string{"fq", ".", "sample"}
+		return o
+	}
 	o.AddFile("sample", simos.Regular, corpus.Data(j.s))
 	args := []string{"fq"}
 	if j.s.Format != "" {
@@ -149,19 +168,15 @@ func (*hconc) Run(rc *core.RunCtx) *core.RunResult {
 			if i == 0 {
 				// consecutive run indices walk the pool so that every format gets its turn
 				si = (rc.Idx + t.Intn(2)) % len(samples)
-				if rc.Race && concRuns == 1 {
-					// first run of this process, everything lazy is still cold: twins that go
-					// through the probe touch the process-wide tables first, and together
-					for k, s := range samples {
-						if s.Format == "" {
-							si = k
-							break
-						}
-					}
-				}
 			}
 			j = &concJob{s: samples[si], prog: concProgs[t.Intn(len(concProgs))]}
 			j.optForce = t.Intn(8) == 0 && j.s.Format != ""
+			if (i == 0 && rc.Race && concRuns == 1) || t.Intn(12) == 0 {
+				// probing garbage walks every decoder: in the first run of a race worker
+				// (twins, everything lazy still cold) and now and then elsewhere
+				j.garbage = true
+				j.optForce = false
+			}
 		}
 		j.planKind, j.planAt = simos.PlanNone, 0
 		if t.Intn(10) == 0 {
@@ -174,6 +189,9 @@ func (*hconc) Run(rc *core.RunCtx) *core.RunResult {
 	knobs := map[string]int{"cacheReadAheadSize": []int{1, 7, 64, 64, 4096, 4096}[t.Intn(6)], "progressPrecision": precKnobs[t.Intn(len(precKnobs))]}
 	for _, j := range jobs {
 		j.key = fmt.Sprintf("%s|%s|%v|%s|%v", j.s.Rel, j.s.Format, j.s.Opts, j.prog, j.optForce)
+		if j.garbage {
+			j.key = "garbage under the probe"
+		}
 		if j.planKind != simos.PlanNone {
 			// where the k-th disk call lands depends on the cache size
 			j.key += fmt.Sprintf("|%d@%d|%v", j.planKind, j.planAt, knobs)
@@ -246,7 +264,11 @@ func (*hconc) Run(rc *core.RunCtx) *core.RunResult {
 	sim.Close()
 	var descr []string
 	for i, j := range jobs {
-		descr = append(descr, fmt.Sprintf("job%d: %s -d %s %q force=%v fault=%d@%d", i, j.s.Rel, j.s.Format, j.prog, j.optForce, j.planKind, j.planAt))
+		if j.garbage {
+			descr = append(descr, fmt.Sprintf("job%d: garbage under the probe fault=%d@%d", i, j.planKind, j.planAt))
+		} else {
+			descr = append(descr, fmt.Sprintf("job%d: %s -d %s %q force=%v fault=%d@%d", i, j.s.Rel, j.s.Format, j.prog, j.optForce, j.planKind, j.planAt))
+		}
 		for c, n := range oss[i].Disk.Counts {
 			if n > 0 {
 				res.Faults[simos.FaultNames[c]] += n
